@@ -17,32 +17,40 @@ CHECKS = {}
 
 # oracles added after the first registration (DESIGN.md 9.3)
 ADDED = {
+    'C11': ' Raked pools; tables with math.inf stacks.',
+    'C07': ' Explicit-index shows while hands are killed or chips moved by'
+           ' hand.',
+    'C03': ' Re-opening after short all-ins is modelled per player from the'
+           ' rule book (the wager each player last answered); constructed'
+           ' regions: consecutive short all-ins, a caller between two of them'
+           ' (listed finding R3), a short all-in as the first wager; tables'
+           ' with math.inf stacks.',
     'C01': ' Every public pot view (total_pot_amount, pot_amounts, pots)'
            ' must agree; a quarter of the runs are observed ones (all public'
            ' accessors read between operations).',
     'C02': ' Each bet collection must return exactly the uncalled part of the'
            ' largest bet (round bets rebuilt from the posting/betting'
            ' records); half of the runs are observed ones; flat-drop rake'
-           ' callbacks.',
+           ' callbacks. Tables with stacks that are not mentioned (math.inf).',
     'C04': ' Every documented CardsLike spelling; hands padded with'
            ' unknown-rank cards; a hand built from a list keeps its cards when'
-           ' the list is reused.',
+           ' the list is reused. The deuce-to-seven wheel is judged by the rule book under its own signature (listed finding W1).',
     'C05': ' Every documented CardsLike spelling for hole and board;'
-           ' constructed twin-suited Omaha holes.',
+           ' constructed twin-suited Omaha holes. One board list grown in place between two evaluations.',
     'C06': ' An engine-chosen deal touches the reserve piles only once the'
            ' deck is exhausted; a board deal mixing known cards and'
-           ' placeholders is probed on a deep copy.',
+           ' placeholders is probed on a deep copy. The same card named twice in one dealing or showing argument is probed with warnings as errors; exact accounting also over placeholders the engine writes itself.',
     'C08': ' Footprint of an explicit player index (state changes only at that'
            ' index, the right player leaves the pending queue); duplicate'
-           ' cards and malformed card texts among the probed arguments.',
+           ' cards and malformed card texts among the probed arguments. Operations carrying a multi-line commentary.',
     'C10': ' Boards are filled in order and are complete at every betting'
            ' decision; named dealees honoured; full stud tables with unknown'
-           ' cards; custom streets prescribing hole and board cards.',
+           ' cards; custom streets prescribing hole and board cards. Discards in every CardsLike form must be the cards discarded; a contested hand goes through every street (street objects may be shared); nine-handed stud, every community card lies on a board.',
     'C12': ' Showdowns in any player order, partial shows before the last'
            ' street, voluntary face-down shows on a board that plays,'
            ' half-known card probes; half of the runs are observed ones.',
     'C13': ' Constructed stud hands in which the opener folds at once on a'
-           ' chosen street.',
+           ' chosen street. Heads-up layouts with a zero blind and layouts whose blinds are swallowed by the antes are judged by position.',
     'C14': ' Players who already chose or folded are probed by explicit'
            ' index; raked pools.',
     'C15': ' Exactness: after every operation the logged players, amounts'
@@ -53,16 +61,16 @@ ADDED = {
            ' interpreter processes (several PYTHONHASHSEED values).',
     'C16': ' Generated edits of the action list are either reported or fully'
            ' applied; multi-hand files (1-23 hands) through text and binary'
-           ' API; no user field may appear that was not given.',
+           ' API; no user field may appear that was not given. Arbitrary strings (quotes, line breaks, control characters), arbitrary keys and date values in user fields.',
     'C17': ' Raked hands that record finishing stacks (Pluribus result = real'
-           ' payoffs).',
-    'C18': ' All six rank orders.',
+           ' payoffs). Histories with standalone commentary lines and without show lines; logs of several lines with LF or CR LF.',
+    'C18': ' All six rank orders. Payout tables longer than the player list.',
     'C19': ' Layouts through all twelve variants and both creation routes;'
            ' hand-evaluating entry points across CardsLike spellings; unknown'
            ' card objects; invalid layouts in bring-in games, with and'
-           ' without automation.',
+           ' without automation. One game object called for tables of several sizes.',
     'C20': ' Thousands separators, files with several hands, screen names'
-           ' containing action words.',
+           ' containing action words. Line-end, byte-order-mark and header variants; show lines after an all-in run-out.',
 }
 
 
